@@ -987,6 +987,17 @@ func litSexp(v px.Value) string {
 		return floatSexp(v.Float())
 	case px.StringValue:
 		return "(s " + hx(v.String()) + ")"
+	case px.Type:
+		// a type held by the init hash: by its text, when the resolver model has it (no float bounds: the op carries no
+		// float oracle)
+		var text string
+		if o := syn.Safely(func() px.Value { text = v.String(); return px.Undef }); o.Kind != "value" || strings.Contains(text, "Float[") {
+			return ""
+		}
+		if p := syn.Parse(text); p.Kind != "value" || !syn.Modelled(p.Val) {
+			return ""
+		}
+		return "(ty " + hx(text) + ")"
 	case *types.Array:
 		out := "(a"
 		ok := true
@@ -1342,6 +1353,9 @@ func gen(g *core.G) {
 				for _, rest := range []string{"t", "f"} {
 					pv := "(param " + hx(nm) + " " + hx(ty) + " " + val + " " + rest + ")"
 					g.Emit("@rt-val " + pv + " ()")
+					if op := objLitOp(c, pv); op != "" {
+						g.Emit(op)
+					}
 					if rest == "f" {
 						g.Emit("@rt-val (a " + pv + " (h ((s " + hx("k") + ") " + pv + "))) ()")
 					}
